@@ -22,6 +22,15 @@ package sharedfile
 // SharedFile outside its lock can undo the registration a concurrent Acquire
 // has just made (call site obligation `terminal` on every Forget).
 
+// "Idle handles are eventually closed": a handle nobody holds any more is
+// either governed by a pool that evicts (the monitor invariant livepool: a
+// SharedFile never keeps a no-op pool, established by NewWithPool) or has its
+// grace timer armed whenever the lock is free (the monitor invariant idle). A pool is
+// told about a handle (Touch) only by the Acquire that has pinned it, after
+// the critical section in which it did so (after_pin): a registration made
+// before the pin can be evicted as an unpinned victim while the file is not
+// open yet, and the descriptor opened afterwards is then in no LRU.
+
 // The open function stored in the struct returns an open handle or an error.
 //gvc:func field:SharedFile.open
 //gvc:  trusted
@@ -42,8 +51,12 @@ package sharedfile
 //gvc:  monitor s invariant openfile: s.file != nil ==> s.file.#open
 //gvc:  monitor s invariant pinned: s.refs > 0 && !s.closed ==> s.file != nil
 //gvc:  monitor s invariant latch: s.immediateClose ==> s.refs > 0 || s.file == nil
+//gvc:  monitor s invariant livepool: s.pool != nil ==> s.pool.#enabled
+//gvc:  monitor s invariant idle: s.refs == 0 && s.file != nil && !s.closed ==> s.pool != nil || s.timer != nil
 //gvc:  ensures handed: err == nil ==> f != nil
 //gvc:  sink Forget requires terminal: s.closed
+//gvc:  sink Unlock#3 requires pinned: s.refs > 0 && s.file != nil
+//gvc:  sink Touch requires after_pin: calls("Unlock") >= 1 && arg0 == s
 //gvc:end
 
 //gvc:func (*SharedFile).Release
@@ -56,6 +69,8 @@ package sharedfile
 //gvc:  monitor s invariant openfile: s.file != nil ==> s.file.#open
 //gvc:  monitor s invariant pinned: s.refs > 0 && !s.closed ==> s.file != nil
 //gvc:  monitor s invariant latch: s.immediateClose ==> s.refs > 0 || s.file == nil
+//gvc:  monitor s invariant livepool: s.pool != nil ==> s.pool.#enabled
+//gvc:  monitor s invariant idle: s.refs == 0 && s.file != nil && !s.closed ==> s.pool != nil || s.timer != nil
 //gvc:  sink Close requires unpinned: s.refs == 0
 //gvc:  sink Forget requires terminal: s.closed
 //gvc:end
@@ -70,6 +85,8 @@ package sharedfile
 //gvc:  monitor s invariant openfile: s.file != nil ==> s.file.#open
 //gvc:  monitor s invariant pinned: s.refs > 0 && !s.closed ==> s.file != nil
 //gvc:  monitor s invariant latch: s.immediateClose ==> s.refs > 0 || s.file == nil
+//gvc:  monitor s invariant livepool: s.pool != nil ==> s.pool.#enabled
+//gvc:  monitor s invariant idle: s.refs == 0 && s.file != nil && !s.closed ==> s.pool != nil || s.timer != nil
 //gvc:  sink Close requires unpinned: s.refs == 0
 //gvc:  sink Forget requires terminal: s.closed
 //gvc:end
@@ -84,6 +101,8 @@ package sharedfile
 //gvc:  monitor s invariant openfile: s.file != nil ==> s.file.#open
 //gvc:  monitor s invariant pinned: s.refs > 0 && !s.closed ==> s.file != nil
 //gvc:  monitor s invariant latch: s.immediateClose ==> s.refs > 0 || s.file == nil
+//gvc:  monitor s invariant livepool: s.pool != nil ==> s.pool.#enabled
+//gvc:  monitor s invariant idle: s.refs == 0 && s.file != nil && !s.closed ==> s.pool != nil || s.timer != nil
 //gvc:  sink Forget requires terminal: s.closed
 //gvc:end
 
@@ -97,4 +116,14 @@ package sharedfile
 //gvc:  monitor s invariant openfile: s.file != nil ==> s.file.#open
 //gvc:  monitor s invariant pinned: s.refs > 0 && !s.closed ==> s.file != nil
 //gvc:  monitor s invariant latch: s.immediateClose ==> s.refs > 0 || s.file == nil
+//gvc:  monitor s invariant livepool: s.pool != nil ==> s.pool.#enabled
+//gvc:  monitor s invariant idle: s.refs == 0 && s.file != nil && !s.closed ==> s.pool != nil || s.timer != nil
+//gvc:end
+
+//gvc:func NewWithPool
+//gvc:  props C24
+//gvc:  theory int
+//gvc:  opt coarse
+//gvc:  opt frame args
+//gvc:  ensures livepool: result != nil && (result.pool != nil ==> result.pool.#enabled)
 //gvc:end
